@@ -569,6 +569,14 @@ func (w *World) buildReplay(dir, id string, r *Result, why string) *replayFile {
 			rf.Inputs["stream "+p.Name()] = parts
 			continue
 		}
+		if nt, ok := p.Type().(*types.Named); ok && nt.Obj().Pkg() != nil && nt.Obj().Pkg().Path() == "io" && nt.Obj().Name() == "Writer" {
+			// an io.Writer argument: a buffer that accepts everything (the
+			// failure behaviour of the destination is not part of the replay)
+			w.replayImports["bytes"] = "bytes"
+			argExprs = append(argExprs, "new(bytes.Buffer)")
+			rf.Inputs["writer "+p.Name()] = "a fresh bytes.Buffer"
+			continue
+		}
 		g, js, err := w.modelValue(o, v.T, p.Type(), entry)
 		if err != nil || g == "" {
 			rf.ReplayNote = fmt.Sprintf("input %s not replayable: %v", p.Name(), err)
